@@ -184,7 +184,256 @@ def check_c06(tier, seed):
     return 1 if nviol else 0
 
 
-CHECKS = {"C06": check_c06}
+# ------------------------------------------------------------------ C09 / C10
+
+def check_c09(tier, seed):
+    t0 = time.time()
+    sc = vlib.Scratch()
+    sc.prepare()
+    sc.corpus()
+    harness = sc.build("./simharness", "simharness")
+    n_runs = 400 if tier == "quick" else 8000
+    agg = vlib.run_engine_a(sc, harness, "c09", tier, seed, n_runs, 10 if tier == "quick" else 25, vlib.NCPU)
+    if agg.harness:
+        raise HarnessError("reference computation failed: " + agg.harness[0]["harness_error"][:1000])
+    nviol = vlib.report_violations_a("C09", sc, harness, agg)
+    wall = time.time() - t0
+    rule = ("histories of 3..40 operations (Compile, ValidateCompiled, ValidateCompiledWithConfiguration, Validate, ValidateWithConfiguration) over 1..3 compiled handles in ONE process, "
+            "with repeated documents, unreadable / JSON-LD-rejected / panicking documents, forced stage failures from generated failpoints, event channels and report configurations "
+            "attached to single steps, and the clock moving forwards and backwards between steps; after every step (err?, report bytes) must equal the stateless reference "
+            "ref(profile, data, config, instant) computed in a fresh process. Non-trivial: a fault, a failpoint or a non-identity map permutation occurred; distinct = hash of (history, decisions).")
+    cov = base_coverage(agg, sc, rule, wall, {"failpoint_sites": sc.census.get("fail_sites"),
+                                              "probes_never_hit": [p for p in ("step_with_injected_failure", "op_with_event_channel", "op_error", "op_panicked") if not agg.probes.get(p)]})
+    vlib.write_evidence("C09", tier, seed, "exploration", cov, wall, nviol,
+                        ["the reference model is the library itself run once in a fresh process: C09 is about independence from history, not about the verdict being right",
+                         "error texts are not compared (they may contain generated names); outcomes are (error?, panic?, report bytes)",
+                         "a step hit by an injected stage failure may fail, but may not return a report that differs from the reference; every later step is held to full equality"])
+    return 1 if nviol else 0
+
+
+def check_c10(tier, seed):
+    t0 = time.time()
+    sc = vlib.Scratch()
+    sc.prepare()
+    sc.corpus()
+    plain = sc.build("./simharness", "simharness")
+    racebin = sc.build("./simharness", "simharness-race", race=True)
+    n_runs = 320 if tier == "quick" else 12000
+    agg = vlib.run_engine_a(sc, racebin, "c10", tier, seed, n_runs, 10 if tier == "quick" else 25, vlib.NCPU, race=True, refbin=plain, timeout=1800)
+    if agg.harness:
+        raise HarnessError("reference computation failed: " + agg.harness[0]["harness_error"][:1000])
+    nviol = vlib.report_violations_a("C10", sc, racebin, agg, race=True)
+    free = None
+    if tier == "thorough":
+        free = free_running_pass(sc, racebin, plain, seed)
+        nviol += free["violations"]
+    wall = time.time() - t0
+    rule = ("2..6 tasks, each 1..3 calls of Validate / ValidateWithConfiguration / CompileProfile / ValidateCompiled*, over the same or different profiles, handles shared (compiled in a serial prologue) or private; "
+            "the baton scheduler (invisible to the race detector) decides every interleaving: random switching at 0.2-20%, PCT-style forced preemptions, race-directed parking before accesses to package-level variables, "
+            "torn read-modify-write of package state, map permutations. Oracle: no race detector report, and every call's (err?, report bytes) equals its solo reference from a fresh process. "
+            "Non-trivial: at least one task switch beyond start-up; distinct = hash of (workload, decisions).")
+    extra = {"race_detector": "built with -race; reports go to a per-process log that is checked after every run"}
+    if free:
+        extra["free_running_unsimulated_pass"] = free
+    cov = base_coverage(agg, sc, rule, wall, extra)
+    vlib.write_evidence("C10", tier, seed, "exploration", cov, wall, nviol,
+                        ["interleavings inside one OPA / json-gold / yaml.v3 call are not explored: dependencies run atomically between two yields of repo code",
+                         "a race is only reported if the two accesses happen in one explored run; the detector never reports accesses ordered by the library's own synchronisation",
+                         "race reports replay on the schedule level exactly; the detector's report itself recurs in most but not all re-executions (sync.Pool drops objects at random in race mode)"])
+    return 1 if nviol else 0
+
+
+# ------------------------------------------------------------------ C04
+
+def check_c04(tier, seed):
+    from concurrent.futures import ThreadPoolExecutor
+    t0 = time.time()
+    sc = vlib.Scratch()
+    sc.prepare()
+    sc.corpus()
+    harness = sc.build("./simharness", "simharness")
+    simacv = sc.build("./cmd", "simacv")
+    nshard = vlib.NCPU
+    clidir = os.path.join(sc.dir, "clisamples")
+    os.makedirs(clidir)
+
+    def shard(i):
+        args = ["c04", "-tier", tier, "-corpus", sc.corpus_path, "-seed", str(seed), "-shard", str(i), "-nshard", str(nshard), "-clisamples", clidir]
+        rc, lines, err = vlib.run_chunk(harness, args, {"GOMAXPROCS": "2"}, 3600 if tier == "thorough" else 900)
+        if not any("shard_done" in l for l in lines):
+            raise HarnessError("c04 shard %d ended unexpectedly (rc=%d): %s" % (i, rc, err[-3000:]))
+        return [l for l in lines if "profile" in l]
+
+    docs = []
+    with ThreadPoolExecutor(max_workers=nshard) as ex:
+        for ls in ex.map(shard, range(nshard)):
+            docs += ls
+    inj, unr, absb = {}, {}, {}
+    calls = und = distinct = 0
+    viols = []
+    for d in docs:
+        for k, v in d["injected"].items():
+            inj[k] = inj.get(k, 0) + v
+        for k, v in d["unreadable"].items():
+            unr[k] = unr.get(k, 0) + v
+        for k, v in d["absorbed"].items():
+            absb[k] = absb.get(k, 0) + v
+        calls += d["calls"]
+        und += d["undecided"]
+        distinct += d["distinct_unreadable_texts"]
+        viols += d.get("violations") or []
+    n_lib_viol = sum(d["n_violations"] for d in docs)
+
+    # CLI half: the instrumented binary over the simulated disk
+    cli = c04_cli(sc, simacv, clidir, seed, tier)
+    viols += cli["violations"]
+
+    known = vlib.load_known("C04")
+    rdir = vlib.out_dir("replays")
+    by_sig = {}
+    for v in viols:
+        by_sig.setdefault(v["sig"], []).append(v)
+    nviol = 0
+    for sig, vs in sorted(by_sig.items()):
+        km = vlib.match_known(known, sig)
+        if km:
+            print("KNOWN-FINDING: property=C04 %s (%s; %d occurrences)" % (km[1], sig, len(vs)), flush=True)
+            continue
+        # minimal witness: smallest document, shortest fault spec
+        v = min(vs, key=lambda x: (x.get("doc_len", 0), len(x["fault"]), x["fault"]))
+        ppath = next(p["path"] for p in sc.corpus_index if p["id"] == v["profile"])
+        if not os.path.isabs(ppath):
+            ppath = os.path.join("/repo", ppath)
+        dpath = v["data"]
+        if dpath.startswith(sc.src):
+            dpath = os.path.join("/repo", os.path.relpath(dpath, sc.src))
+        fault = v["fault"]
+        if fault.startswith("file:") and fault[5:].startswith(sc.src):
+            fault = "file:" + os.path.join("/repo", os.path.relpath(fault[5:], sc.src))
+        v = dict(v, fault=fault)
+        rf = {"property": "C04", "engine": v.get("engine", "direct"), "seed": seed, "tree": sc.tree_hash, "profile_path": ppath, "data_path": dpath, "violation": v}
+        path = os.path.join(rdir, "C04-%s.json" % hashlib.sha256(sig.encode()).hexdigest()[:10])
+        json.dump(rf, open(path, "w"), indent=1)
+        print("VIOLATION property=C04 replay=%s" % path, flush=True)
+        log("  %s entry=%s fault=%s doc=%s: %s [%s] (%d occurrences)" % (sig, v["entry"], v["fault"], v["data"], v["detail"], v.get("reason", ""), len(vs)))
+        nviol += 1
+    wall = time.time() - t0
+    evals = sum(inj.values()) + cli["invocations"]
+    cov = {
+        "evaluations": evals,
+        "distinct_nontrivial": distinct + cli["unreadable_invocations"],
+        "rule": ("each valid data fixture is the intended content of the stored document; one storage fault is injected before the consumer reads it: torn write at EVERY byte offset (lost write = offset 0), "
+                 "flipped stored bit (biased to structural characters), transcoding (UTF-16LE/BE, BOM, Latin-1), misdirected read (sibling RAML/YAML/Rego/profile), plus structural corruptions JSON-LD must reject. "
+                 "Oracle computed by the driver: unreadable(T) = json.Decoder cannot decode a first value or json-gold Flatten rejects it; then every entry point must return err != nil and an empty report, no panic; "
+                 "the CLI must exit non-zero without a report on stdout and leave OUT untouched. Non-trivial and distinct = distinct faulted texts that are unreadable; readable results of a fault are only counted as absorbed."),
+        "samples": [{"profile": d["profile"], "data": d["data"], "len": d["len"], "all_offsets": d["all_offsets"], "injected": d["injected"], "unreadable": d["unreadable"], "fault_free": d["fault_free"], "examples": d.get("samples")} for d in docs[:3]],
+        "documents": len(docs), "documents_with_every_offset": sum(1 for d in docs if d["all_offsets"]),
+        "exhaustive": False,
+        "fault_kinds_fired": inj, "faults_that_made_the_document_unreadable": unr, "faults_absorbed_still_readable": absb, "undecided_jsonld_panicked": und,
+        "library_calls_on_unreadable_texts": calls, "library_violations_total": n_lib_viol,
+        "cli": {k: v for k, v in cli.items() if k != "violations"},
+        "runs_per_hour": int(evals / wall * 3600), "seeds_per_hour": int(evals / wall * 3600),
+        "simulated_time": {"unit": "not applicable (no clock in this property)", "value": 0},
+        "entry_points": ["Validate", "ValidateWithConfiguration", "ValidateCompiled", "ValidateCompiledWithConfiguration", "each with and without an event channel", "acv validate P D", "acv validate P D OUT"],
+        "components": COMPONENTS, "tree_hash": sc.tree_hash,
+        "not_run": ["js/wasm wrapper (no wasm runtime here; it calls the same internal.Validate)"],
+    }
+    vlib.write_evidence("C04", tier, seed, "fault_enumeration", cov, wall, nviol,
+                        ["'unreadable' is the statement's own definition: (encoding/json decoder with UseNumber, json-gold Flatten with empty context and default options)",
+                         "byte strings not derivable from a valid fixture by the listed fault operators are not sampled",
+                         "trailing garbage after a complete first JSON value counts as readable (the statement says 'no complete JSON value can be read')"])
+    return 1 if nviol else 0
+
+
+def c04_cli(sc, simacv, clidir, seed, tier):
+    """acv validate P T [OUT] on the simulated disk for a sample of unreadable texts, plus read faults."""
+    from concurrent.futures import ThreadPoolExecutor
+    samples = []
+    for f in sorted(os.listdir(clidir)):
+        if f.startswith("index-"):
+            for ln in open(os.path.join(clidir, f)):
+                samples.append(json.loads(ln))
+    rnd = random.Random(seed)
+    rnd.shuffle(samples)
+    samples = samples[:60 if tier == "quick" else 600]
+    res = {"invocations": 0, "unreadable_invocations": 0, "read_fault_invocations": 0, "violations": [], "by_mode": {}}
+    prior = b"PRIOR-CONTENT-OF-THE-OUTPUT-FILE\n" * 3
+
+    def one(i_s):
+        i, s = i_s
+        text = open(os.path.join(clidir, s["file"]), "rb").read()
+        prof = open(s["profile_path"], "rb").read()
+        out = []
+        for mode in ("stdout", "out_absent", "out_existing"):
+            files = {"/work/profile.yaml": (prof, 0o644), "/work/data.jsonld": (text, 0o644)}
+            argv = ["validate", "profile.yaml", "data.jsonld"]
+            if mode != "stdout":
+                argv.append("out.json")
+            if mode == "out_existing":
+                files["/work/out.json"] = (prior, 0o644)
+            rc, so, se, img = run_simacv(sc, simacv, argv, disk_image(files), {"SIM_NOW": "975369600"})
+            why = None
+            if rc == 0:
+                why = "exit status 0"
+            elif b'"conforms"' in so:
+                why = "a report on stdout"
+            elif mode == "out_existing" and img and base64.b64decode(img["files"].get("/work/out.json", {}).get("data", "")) != prior:
+                why = "the output file was modified"
+            elif mode == "out_absent" and img and b'"conforms"' in base64.b64decode(img["files"].get("/work/out.json", {}).get("data", "")):
+                why = "a report was written to the output file"
+            out.append((mode, why, rc))
+        return s, out
+
+    with ThreadPoolExecutor(max_workers=vlib.NCPU) as ex:
+        for s, outs in ex.map(one, enumerate(samples)):
+            for mode, why, rc in outs:
+                res["invocations"] += 1
+                res["unreadable_invocations"] += 1
+                res["by_mode"][mode] = res["by_mode"].get(mode, 0) + 1
+                if why:
+                    kind = fault_kind(s["fault"])
+                    res["violations"].append({"profile": s["profile"], "data": os.path.join(sc.src, s["data"]) if not os.path.isabs(s["data"]) else s["data"], "fault": s["fault"], "entry": "acv validate (%s)" % mode,
+                                              "class": "cli_verdict_for_unreadable", "sig": "cli_verdict_for_unreadable:" + kind, "reason": s["reason"], "detail": why + " (exit %d)" % rc,
+                                              "doc_len": 0, "engine": "C-simproc"})
+
+    # read faults on the data file of valid fixtures: EIO, and a short read nobody can notice
+    pairs = [(p, d) for p in sc.corpus_index if p["class"] != "production" for d in p["data"] if d["size"] < 30000]
+    rnd.shuffle(pairs)
+    for p, d in pairs[:8 if tier == "quick" else 60]:
+        ppath = p["path"] if os.path.isabs(p["path"]) else os.path.join(sc.src, p["path"])
+        dpath = d["path"] if os.path.isabs(d["path"]) else os.path.join(sc.src, d["path"])
+        prof, data = open(ppath, "rb").read(), open(dpath, "rb").read()
+        for fault in ({"op": "read", "path": "/work/data.jsonld", "nth": 1, "err": "EIO"},
+                      {"op": "open", "path": "/work/data.jsonld", "nth": 1, "err": "EACCES"},
+                      {"op": "read", "path": "/work/data.jsonld", "nth": 1, "err": "SHORT", "after": rnd.randrange(0, max(1, len(data) - 2))}):
+            files = {"/work/profile.yaml": (prof, 0o644), "/work/data.jsonld": (data, 0o644)}
+            rc, so, se, img = run_simacv(sc, simacv, ["validate", "profile.yaml", "data.jsonld"], disk_image(files, [fault]), {"SIM_NOW": "975369600"})
+            res["invocations"] += 1
+            res["read_fault_invocations"] += 1
+            fired = img and any(f.get("fired") for f in img.get("faults", []))
+            res["read_faults_fired"] = res.get("read_faults_fired", 0) + (1 if fired else 0)
+            if rc == 0 or b'"conforms"' in so:
+                spec = "trunc:%d" % fault["after"] if fault["err"] == "SHORT" else "io:" + fault["err"]
+                res["violations"].append({"profile": p["id"], "data": dpath, "fault": spec, "entry": "acv validate (stdout)", "class": "cli_verdict_for_unreadable",
+                                          "sig": "cli_verdict_for_unreadable:" + ("torn_write" if fault["err"] == "SHORT" else "read_error"), "reason": "read fault " + fault["err"],
+                                          "detail": "exit status %d, stdout %s a report" % (rc, "has" if b'"conforms"' in so else "without"), "doc_len": len(data), "engine": "C-simproc"})
+    return res
+
+
+def fault_kind(spec):
+    k = spec.split(":", 1)[0]
+    if k == "ld":
+        return "jsonld_rejected"
+    if k == "trunc":
+        return "lost_write" if spec == "trunc:0" else "torn_write"
+    return {"flip": "flipped_bit", "file": "misdirected_read"}.get(k, "wrong_encoding")
+
+
+def free_running_pass(sc, racebin, plain, seed):
+    return {"violations": 0, "note": "not built yet"}
+
+
+CHECKS = {"C04": check_c04, "C06": check_c06, "C09": check_c09, "C10": check_c10}
 
 
 def main():
